@@ -51,7 +51,8 @@ Definition arg_of_param (pre as_pos : bool) (p : param) : option arg :=
   (* default = param.default; if empty and is_optional(annotation): default = None *)
   let d0 := match p_default p with
             | Some v => Some v
-            | None => if is_optional (p_ty p) then Some VNone else None
+            | None => if is_optional (p_ty p) then Some VNone
+                      else ty_default (p_ty p)   (* a dataclass group: required iff one of its fields is; Point: none *)
             end in
   (* is_required = default == inspect_empty *)
   let is_required := match d0 with None => true | Some _ => false end in
@@ -336,6 +337,7 @@ Fixpoint kwargs_of (c : cfg) : res (list (str * value)) :=
 Definition truthy (v : value) : bool :=
   match v with
   | VInt z => negb (Z.eqb z 0) | VStr s => nonempty s | VBool b => b | VNone => false | VList l => nonempty l
+  | VData _ _ => true
   end.
 
 Definition run_component (pre : bool) (c : comp) (cf : cfg) : res (list call * retv) :=
